@@ -114,6 +114,14 @@ func (r *Registry) extendChain() {
 			if _, v2, err := decodeCC(e); err == nil {
 				cur := r.latestConf()
 				if next, merr := cur.Apply(v2); merr == nil {
+					if len(cur.Voters) == 1 {
+						for v := range cur.Voters {
+							if !next.Voters[v] {
+								// the sole voter is replaced in one (joint) change
+								r.s.Stats.inc("conf.one_voter_shrink")
+							}
+						}
+					}
 					if len(cur.Voters) == 2 {
 						for v := range cur.Voters {
 							if !next.Voters[v] {
